@@ -29,12 +29,17 @@ CLASSES = {
     "la": ("la x6, v[2]", "pseudo", ("la", 6, DATA + 8)),
     "ldn": ("lb x7, w[1]", "pseudo", ("load", "lb", 7, DATA + 13)),
     "stn": ("sw x7, v[1], x8", "pseudo", ("store", "sw", 7, 8, DATA + 4)),
+    # the same pseudo-instructions without an index, so that sequences mix indexed and un-indexed references
+    "la0": ("la x6, w", "pseudo", ("la", 6, DATA + 12)),
+    "ldn0": ("lhu x9, h", "pseudo", ("load", "lhu", 9, DATA + 16)),
+    "stn0": ("sh x7, h, x8", "pseudo", ("store", "sh", 7, 8, DATA + 16)),
 }
-NEEDS_DATA = {"la", "ldn", "stn"}
+NEEDS_DATA = {"la", "ldn", "stn", "la0", "ldn0", "stn0"}
+BYNAME = ["la", "ldn", "stn", "la0", "ldn0", "stn0"]
 REF_KINDS = ("b", "j")        # branch / jal to a label (+offset)
 NUM_KINDS = ("jabs", "bnum")  # jal to an absolute number, branch with a numeric displacement
 SIZE_CLASSES = ["real", "li2", "ldn", "b", "j"]
-ALL_KINDS = list(CLASSES) + list(REF_KINDS) + list(NUM_KINDS)
+ALL_KINDS = [k for k in CLASSES if not k.endswith("0")] + list(REF_KINDS) + list(NUM_KINDS)
 PLACEMENTS = (None, "alone", "inline")
 FRAMINGS = ("none", "text", "data-first", "data-last")
 
@@ -257,6 +262,25 @@ def layout_shard(shard):
     if first == 0 and part == 0:
         c = (("ldn", "j"), ("inline", None), True, {1: "Lend"}, 8) if L >= 2 else (("j",), ("alone",), False, {0: "L0"}, 0)
         p.sample(dict(kind="layout", text=render(c, "data-first")))
+    return p
+
+
+def byname_shard(shard):
+    """Every sequence of by-name pseudo-instructions (indexed and un-indexed, la / load / store) of a given length:
+    the group of each must not depend on what was referenced before it."""
+    L, first = shard
+    p = Partial()
+    for tail in itertools.product(BYNAME, repeat=L - 1):
+        seq = (BYNAME[first],) + tail
+        case = (seq, (None,) * L, False, {}, 0)
+        for framing in ("data-first", "data-last"):
+            text, d = check_layout(case, framing)
+            p.evaluations += 1
+            p.nontrivial += 1
+            p.counters["by-name-sequence"] += 1
+            if d:
+                p.violation(dict(oracle="layout", field="instructions", **features(case)), dict(kind="layout", case=[list(seq), [None] * L, False, {}, 0], framing=framing),
+                            f"{text!r}: {d}", size=(L, len(text)))
     return p
 
 
@@ -529,14 +553,15 @@ def run(ctx):
                 "load-by-name, store-by-name, branch-to-label, jal-to-label, jal absolute, numeric branch} x label placement {none, stand-alone, in-line} x "
                 "optional end label x every choice of referenced label (forward, backward, self, end) x +0x offset {none, 4, 8} x segment framing {none, .text, "
                 ".data first, .data last}; expected list computed from the abstract program: real instructions with exact operands, pseudo groups identical "
-                "to the group assembled on its own, displacements from the label addresses after expansion. (b) every mnemonic in every documented operand "
+                "to the group assembled on its own, displacements from the label addresses after expansion. (a') every sequence of 2-3 (4) la / load / store by-name pseudo-instructions, "
+                "indexed and un-indexed, so that no group depends on what was referenced before it. (b) every mnemonic in every documented operand "
                 "form with boundary immediates at three addresses. (c) spelling deviations (bound 1): ABI <-> xN for all 33 names x operand positions, "
                 "mnemonic case, radix/sign of literals, whitespace, comments, blank lines, line endings: loaded list unchanged. (d) pseudo-instruction groups "
                 "executed on the golden model from arbitrary register contents: documented effect and no other register touched. Non-trivial = text with a "
                 "label or reference / any (b)-(d) case.")
     ctx.assumptions += ["'well-formed' = generated by this grammar: encodable immediates, label names that are not register or mnemonic names, no '#' inside strings",
                         "load-by-name may overwrite t0 (help page) in addition to rd"]
-    ctx.require("ref-forward", "ref-backward", "ref-self", "ref-end", "inline-label-on-expanding-pseudo")
+    ctx.require("ref-forward", "ref-backward", "ref-self", "ref-end", "inline-label-on-expanding-pseudo", "by-name-sequence")
     n_all = len(ALL_KINDS)
     plans = [("all-classes", ALL_KINDS, 1, None), ("all-classes", ALL_KINDS, 2, None), ("size-classes", SIZE_CLASSES, 3, 1 if ctx.quick else None)]
     if thorough:
@@ -548,6 +573,10 @@ def run(ctx):
         shards = [(kinds, L, f, max_refs, framings, part, parts) for f in range(len(kinds)) for part in range(parts)]
         part = pmap(layout_shard, shards)
         ctx.space(f"layout-{name}-len{L}", part, t0, classes=len(kinds), length=L, framings=list(framings), max_referencing_items=max_refs)
+    for L in (2, 3) if ctx.quick else (2, 3, 4):
+        t0 = time.time()
+        part = pmap(byname_shard, [(L, f) for f in range(len(BYNAME))])
+        ctx.space(f"by-name-sequences-len{L}", part, t0, classes=len(BYNAME), length=L)
     t0 = time.time()
     part = pmap(line_shard, [(i, 16) for i in range(16)])
     ctx.space("line-forms", part, t0, lines=len(line_cases()))
